@@ -155,6 +155,15 @@ def agree(case, impl, model):
         else:
             want = float(max(abs(x) for x in e1))
         return abs(r[1][0] - want) <= 1e-9 * max(1.0, abs(want))
+    if head == "solve_t":
+        # any numeric element type: a matrix whose exact determinant is 0 is refused with the singular-matrix error
+        # (a regular system is only required not to panic here: its values are judged by the f64 cases)
+        (s1, e1), _ = parse_a(t[1]), None
+        n = s1[0]
+        d = det_exact([[F(e1[i * n + j]) for j in range(n)] for i in range(n)])
+        if d == 0:
+            return impl == "err(SingularMatrix)"
+        return impl.startswith("arr(")
     if head == "norm_ax":
         # vector norms along an axis, any numeric element type: one value per lane, converted to the element type
         ty = t[0].partition("@")[2]
@@ -306,6 +315,12 @@ def gen(seed, tier):
         for name in ("inf", "Inf", "INF", "-inf", "1", "2"):
             out.append(f"norm {arr([n], v)} s{name.encode().hex()}")
     out.append(f"norm a2x2:1,2,3,4 n")
+    for ty in ("i8", "i16", "i32", "i64", "f32"):
+        for m, b in (([1, 2, 2, 4], [1, 2]), ([1, 2, 3, 2, 4, 6, 1, 0, 1], [1, 2, 3]), ([0, 0, 0, 0], [1, 1]), ([2, 1, 1, 1], [3, 2]),
+                     ([1, 1, 0, 1, 1, 0, 2, 3, 5], [1, 1, 1]), ([3, 1, 2, 1], [5, 3]), ([1, 2, 3, 4, 5, 6, 7, 8, 9], [1, 0, 1]),
+                     ([1, 1, 1, 1, 1, 1, 1, 1, 1, 1, 1, 1, 1, 1, 1, 1], [1, 2, 3, 4])):
+            n = int(len(m) ** 0.5)
+            out.append(f"solve_t@{ty} {arr([n, n], m)} {arr([n], b)}")
     # vector norms along an axis for every numeric element type (seeded change C15n: the two-norm of integer lanes)
     # (not i8: the sum of squares of a lane leaves the type before the root is taken — the library overflows there)
     for ty in ("i16", "i32", "i64", "f32", "f64"):
